@@ -71,9 +71,9 @@ Proof.
   apply IH. apply ND_insert. exact Hn.
 Qed.
 
-(* a change that does not delete a path and write or delete something beneath it *)
+(* a change that does not delete a path and update something beneath it *)
 Definition WFC (c : cmap) : Prop :=
-  WF c /\ forall k v kd d, In (k, v) c -> In (kd, d) c -> pv_deleted d = true -> ~ Below k kd.
+  WF c /\ forall k v kd d, In (k, v) c -> pv_deleted v = false -> In (kd, d) c -> pv_deleted d = true -> ~ Below k kd.
 
 Lemma covered_spec M p :
   covered M p = true <-> exists t e, In (t, e) M /\ pv_deleted e = true /\ is_path_below p t = true.
@@ -85,23 +85,25 @@ Qed.
 
 Lemma wf_change_WFC c : wf_change c = true <-> WFC c.
 Proof.
-  unfold wf_change, WFC. rewrite andb_true_iff, wfk_WF, forallb_forall. split.
-  - intros [Hw H]. split; [exact Hw|]. intros k v kd d Hk Hd Hdel Hb.
-    specialize (H _ Hk). cbn in H. apply negb_true_iff in H.
+  unfold wf_change, WFC, no_live_below. rewrite andb_true_iff, wfk_WF, forallb_forall. split.
+  - intros [Hw H]. split; [exact Hw|]. intros k v kd d Hk Hlv Hd Hdel Hb.
+    specialize (H _ Hk). cbn in H. rewrite Hlv in H. cbn in H. apply negb_true_iff in H.
     assert (covered c k = true) as Hc; [|congruence].
     apply covered_spec. exists kd, d. split; [exact Hd|]. split; [exact Hdel|].
     apply below_spec; [apply (proj2 Hw _ _ Hd)|exact Hb].
-  - intros [Hw H]. split; [exact Hw|]. intros [k v] Hk. cbn. apply negb_true_iff.
+  - intros [Hw H]. split; [exact Hw|]. intros [k v] Hk. cbn. destruct (pv_deleted v) eqn:Ev; [reflexivity|]. cbn. apply negb_true_iff.
     destruct (covered c k) eqn:E; [|reflexivity]. exfalso. apply covered_spec in E. destruct E as (t & e & Hin & Hdel & Hb).
-    apply (H _ _ _ _ Hk Hin Hdel). apply below_spec; [apply (proj2 Hw _ _ Hin)|exact Hb].
+    apply (H _ _ _ _ Hk Ev Hin Hdel). apply below_spec; [apply (proj2 Hw _ _ Hin)|exact Hb].
 Qed.
 
 Record upd_inv (i : N) (c c1 vw upd : cmap) : Prop := {
   ui_nd : ND upd;
-  ui_ch : forall k cv, In (k, cv) c1 -> lookup k upd = Some cv;
+  ui_ch : forall k cv, In (k, cv) c1 -> pv_deleted cv = false -> lookup k upd = Some cv;
+  ui_del : forall k cv, In (k, cv) c1 -> pv_deleted cv = true ->
+      exists v, lookup k upd = Some v /\ pv_deleted v = true /\ pv_path v = k;
   ui_cases : forall k v, lookup k upd = Some v ->
       In (k, v) c1 \/
-      (~ In k (map fst c) /\ pv_path v = k /\ pv_deleted v = true /\ pv_index v = i /\ In k (paths vw) /\
+      (pv_path v = k /\ pv_deleted v = true /\ In k (paths vw) /\
        exists kc cv, In (kc, cv) c1 /\ pv_deleted cv = true /\ Below k kc);
   ui_kids : forall k kc cv, In k (paths vw) -> In (kc, cv) c1 -> pv_deleted cv = true -> Below k kc -> lookup k upd <> None }.
 
@@ -115,7 +117,7 @@ Lemma adc_step_inv i c vw (k0 : str) (cv0 : pv) c1 c2 upd st :
   upd_inv i c (c1 ++ [(k0, cv0)]) vw (fst (adc_step i (upd, st) (k0, cv0))) /\
   paths (snd (adc_step i (upd, st) (k0, cv0))) = paths vw.
 Proof.
-  intros [[Hnd Hko] Hwf] Hc Hst [Und Uch Ucases Ukids].
+  intros [[Hnd Hko] Hwf] Hc Hst [Und Uch Udel Ucases Ukids].
   assert (Hin0 : In (k0, cv0) c) by (rewrite Hc; apply in_app_iff; right; left; reflexivity).
   destruct (Hko _ _ Hin0) as [Hk0 Hp0].
   assert (Hnot : ~ In k0 (map fst c1)) by (apply (ND_mid_notin c1 k0 cv0 c2); rewrite <- Hc; exact Hnd).
@@ -134,21 +136,23 @@ Proof.
       cbn. unfold hit in Hh. rewrite <- Hk0 in Hh. apply (below_spec _ _ Hp0). exact Hh. }
     split; [split|].
     + apply ND_insert. apply kids_fold_ND. exact Und.
-    + intros k cv Hin. apply in_app_iff in Hin. destruct Hin as [Hin|[[= <- <-]|[]]].
-      * rewrite lookup_insert, <- Hk0. deq k k0; [exfalso; exact (Hne _ _ Hin E)|].
-        destruct (kids_fold_cases mark kids upd k) as [[_ Hl]|(kv & Hkv & Hp & _)]; [rewrite Hl; apply Uch; exact Hin|].
-        exfalso. destruct (Hkid _ Hkv) as [_ Hb]. rewrite Hp in Hb. exact (Hwf _ _ _ _ (Hsub _ Hin) Hin0 Edel Hb).
-      * rewrite lookup_insert, <- Hk0, eqb_str_refl. reflexivity.
+    + intros k cv Hin Hlv. apply in_app_iff in Hin. destruct Hin as [Hin|[[= <- <-]|[]]]; [|congruence].
+      rewrite lookup_insert, <- Hk0. deq k k0; [exfalso; exact (Hne _ _ Hin E)|].
+      destruct (kids_fold_cases mark kids upd k) as [[_ Hl]|(kv & Hkv & Hp & _)]; [rewrite Hl; apply Uch; assumption|].
+      exfalso. destruct (Hkid _ Hkv) as [_ Hb]. rewrite Hp in Hb. exact (Hwf _ _ _ _ (Hsub _ Hin) Hlv Hin0 Edel Hb).
+    + intros k cv Hin Hd. rewrite lookup_insert, <- Hk0. apply in_app_iff in Hin. destruct Hin as [Hin|[[= <- <-]|[]]].
+      * deq k k0; [exfalso; exact (Hne _ _ Hin E)|].
+        destruct (kids_fold_cases mark kids upd k) as [[_ Hl]|(kv & Hkv & Hp & Hl)]; rewrite Hl; [apply (Udel _ _ Hin Hd)|].
+        exists (mark (snd kv)). split; [reflexivity|]. split; [reflexivity|exact Hp].
+      * rewrite eqb_str_refl. exists cv0. split; [reflexivity|]. split; [exact Edel|auto].
     + intros k v Hl. rewrite lookup_insert, <- Hk0 in Hl. deq k k0.
       * injection Hl as <-. subst k. left. apply in_app_iff. right. left. reflexivity.
       * destruct (kids_fold_cases mark kids upd k) as [[_ Hl2]|(kv & Hkv & Hp & Hl2)].
-        -- rewrite Hl2 in Hl. destruct (Ucases _ _ Hl) as [Hin|(H1 & H2 & H3 & H4 & H5 & kc & cv & H6 & H7)].
+        -- rewrite Hl2 in Hl. destruct (Ucases _ _ Hl) as [Hin|(H2 & H3 & H5 & kc & cv & H6 & H7)].
            ++ left. apply in_app_iff. auto.
            ++ right. repeat (split; [assumption|]). exists kc, cv. split; [apply in_app_iff; auto|exact H7].
-        -- rewrite Hl2 in Hl. injection Hl as <-. destruct (Hkid _ Hkv) as [Hs Hb]. rewrite Hp in Hb. right. split.
-           { intros Hk. apply in_map_iff in Hk. destruct Hk as ([k' v'] & Hk' & Hin'). cbn in Hk'. subst k'.
-             exact (Hwf _ _ _ _ Hin' Hin0 Edel Hb). }
-           split; [exact Hp|]. split; [reflexivity|]. split; [reflexivity|]. split.
+        -- rewrite Hl2 in Hl. injection Hl as <-. destruct (Hkid _ Hkv) as [Hs Hb]. rewrite Hp in Hb. right.
+           split; [exact Hp|]. split; [reflexivity|]. split.
            { rewrite <- Hst. unfold paths. rewrite <- Hp. apply (in_map (fun kv => pv_path (snd kv))). exact Hs. }
            exists k0, cv0. split; [apply in_app_iff; right; left; reflexivity|]. split; assumption.
     + intros k kc cv Hk Hin Hd Hb. rewrite lookup_insert, <- Hk0. deq k k0; [discriminate|].
@@ -163,12 +167,14 @@ Proof.
   - (* an update *)
     split; [split|exact Hst].
     + apply ND_insert. exact Und.
-    + intros k cv Hin. rewrite lookup_insert, <- Hk0. apply in_app_iff in Hin. destruct Hin as [Hin|[[= <- <-]|[]]].
-      * deq k k0; [exfalso; exact (Hne _ _ Hin E)|]. apply Uch. exact Hin.
+    + intros k cv Hin Hlv. rewrite lookup_insert, <- Hk0. apply in_app_iff in Hin. destruct Hin as [Hin|[[= <- <-]|[]]].
+      * deq k k0; [exfalso; exact (Hne _ _ Hin E)|]. apply Uch; assumption.
       * rewrite eqb_str_refl. reflexivity.
+    + intros k cv Hin Hd. rewrite lookup_insert, <- Hk0. apply in_app_iff in Hin. destruct Hin as [Hin|[[= <- <-]|[]]]; [|congruence].
+      deq k k0; [exfalso; exact (Hne _ _ Hin E)|]. apply (Udel _ _ Hin Hd).
     + intros k v Hl. rewrite lookup_insert, <- Hk0 in Hl. deq k k0.
       * injection Hl as <-. subst k. left. apply in_app_iff. right. left. reflexivity.
-      * destruct (Ucases _ _ Hl) as [Hin|(H1 & H2 & H3 & H4 & H5 & kc & cv & H6 & H7)].
+      * destruct (Ucases _ _ Hl) as [Hin|(H2 & H3 & H5 & kc & cv & H6 & H7)].
         -- left. apply in_app_iff. auto.
         -- right. repeat (split; [assumption|]). exists kc, cv. split; [apply in_app_iff; auto|exact H7].
     + intros k kc cv Hk Hin Hd Hb. rewrite lookup_insert, <- Hk0. deq k k0; [discriminate|].
@@ -193,7 +199,7 @@ Definition upd_spec (i : N) (c vw upd : cmap) : Prop := upd_inv i c c vw upd.
 Theorem adc_spec i c vw : WFC c -> upd_spec i c vw (fst (add_delete_children i c vw)).
 Proof.
   intros Hw. rewrite adc_fold. apply (adc_inv i c vw Hw c [] [] vw); [reflexivity|reflexivity|].
-  split; [constructor|intros k cv []|intros k v H; discriminate H|intros k kc cv _ []].
+  split; [constructor|intros k cv []|intros k cv []|intros k v H; discriminate H|intros k kc cv _ []].
 Qed.
 
 (** * The recording loop: applyChangeToConfig over the updated change values *)
